@@ -96,6 +96,44 @@ def check_shift(ctx, nx, i):
     ctx.count("shift")
 
 
+def check_bare(ctx, nx, i):
+    """a dataset that holds the four channels only: its time-only COORDINATES (acquisition times, start of the measurement) and the
+    attributes of the coordinates are time-only variables / attributes too; i = 0 has to give back an identical dataset"""
+    r = np.random.default_rng(nx * 17 + i)
+    nt = 3
+    tag = lambda base: base + np.add.outer(np.arange(nx) * 100.0, np.arange(nt))
+    t = np.arange(nt).astype("datetime64[s]")
+    ds = xr.Dataset({"st": (("x", "time"), tag(1e5)), "ast": (("x", "time"), tag(2e5)), "rst": (("x", "time"), tag(3e5)),
+                     "rast": (("x", "time"), tag(4e5))},
+                    coords={"x": np.arange(nx) * 0.5 + 3.0, "time": t, "acquisitiontimeFW": ("time", r.random(nt)),
+                            "acquisitiontimeBW": ("time", r.random(nt)), "timestart": ("time", t - np.timedelta64(5, "s"))},
+                    attrs={"isDoubleEnded": "1", "note": "keep me"})
+    ds["time"].attrs["description"] = "end of the forward measurement"
+    ds["x"].attrs["units"] = "m"
+    ds["acquisitiontimeFW"].attrs["units"] = "s"
+    case = dict(op="shift-bare", nx=nx, i=i)
+    try:
+        out = real_shift(ds, i)
+    except Exception as e:  # noqa: BLE001
+        ctx.fail(f"shift_double_ended raised {type(e).__name__}: {e} on a dataset that holds the four channels only", case)
+        return
+    bad = None
+    for k in ("acquisitiontimeFW", "acquisitiontimeBW", "timestart", "time"):
+        if k not in out.coords or not np.array_equal(out[k].values, ds[k].values):
+            bad = f"time-only variable '{k}' is missing from the result or changed"
+        elif dict(out[k].attrs) != dict(ds[k].attrs):
+            bad = f"attributes of the time-only variable '{k}' are not preserved"
+    if bad is None and dict(out["x"].attrs) != dict(ds["x"].attrs):
+        bad = "attributes of x are not preserved"
+    if bad is None and dict(out.attrs) != dict(ds.attrs):
+        bad = "attributes not preserved"
+    if bad is None and i == 0 and not out.identical(ds):
+        bad = "i = 0 is not the identity (result is not identical to the input)"
+    if bad:
+        ctx.fail(bad, case)
+    ctx.count("shift of a four-channel dataset with time-only coordinates")
+
+
 def check_compose(ctx, nx, a, b):
     """equal signs compose additively; i then -i gives the interior"""
     ds = mk(nx, seed=7)
@@ -201,6 +239,8 @@ def run(ctx):
     for nx in range(2, top + 1):
         for i in range(-(nx - 1), nx):
             check_shift(ctx, nx, i)
+            if abs(i) <= 2 or (nx + i) % 3 == 0:
+                check_bare(ctx, nx, i)
     for nx in range(3, top + 1):
         for a in range(-(nx - 1), nx):
             for b in range(-(nx - 1), nx):
